@@ -99,6 +99,7 @@ type FnEnc struct {
 	errs     []string
 	defers   []deferred
 	ghosts   map[string]HeapVar
+	bags     *bagState
 }
 
 type localRef struct {
